@@ -64,6 +64,11 @@ def table : List Entry := [
   ⟨"discover.serfNet.MembersIP|index|members[i]#2", "for:i < len(members); in:members[i].Name != s._serf.LocalMember().Name", .guarded⟩,
   ⟨"discover.serfNet.NumOfPeers|index|members[i]", "for:i < len(members)", .guarded⟩,
   ⟨"discover.serfNet.NumOfPeers|index|members[i]#2", "for:i < len(members); and:members[i].Status == serf.StatusAlive", .guarded⟩,
+  ⟨"dkg.DistKeyGenerator.Deals|deref|resp.Response.Status", "", .safe "resp of a successful ProcessDeal: ProcessDeal builds &Response{Response: resp} from the non-nil result of ProcessEncryptedDeal (err == nil branch)"⟩,
+  ⟨"dkg.DistKeyGenerator.Deals|index|deals[i]", "", .safe "deals = EncryptedDeals() has len(dealer.verifiers); the dealer was built by NewDealer over d.participants, the slice i ranges over"⟩,
+  ⟨"dkg.DistKeyGenerator.Deals|mapwrite|dd[i]", "made:dd", .guarded⟩,
+  ⟨"dkg.DistKeyGenerator.Deals|panic|panic(\"dkg: cannot process own deal: \" + err.Error())", "after:err != nil; range:d.participants; in:i == int(d.index); after:ok; in:err != nil", .safe "own deal: sealed by this node for its own index one statement earlier (EncryptedDeals) and opened with its own long-term key, so ProcessDeal fails only if the participant list maps the own key to another index or carries no own key: NewDistKeyGenerator refuses a list without the own key, and a peer seat announcing OUR key is refused by genDistKeyGenerator since babf9f5 (model gdkgLoop: err dupkey)"⟩,
+  ⟨"dkg.DistKeyGenerator.Deals|panic|panic(\"dkg: own deal gave a complaint\")", "after:err != nil; range:d.participants; in:i == int(d.index); after:ok; else:err != nil; in:resp.Response.Status != vss.StatusApproval", .safe "own deal: sealed by this node for its own index one statement earlier (EncryptedDeals) and opened with its own long-term key, so ProcessDeal fails only if the participant list maps the own key to another index or carries no own key: NewDistKeyGenerator refuses a list without the own key, and a peer seat announcing OUR key is refused by genDistKeyGenerator since babf9f5 (model gdkgLoop: err dupkey); the own share is evaluated from the own polynomial whose commitments the deal carries, so VerifyDeal approves"⟩,
   ⟨"dkg.DistKeyGenerator.DistKeyShare|deref|deal.SecShare.V", "", .model "distKeyShare: every aggregator stores a deal whose share has a value (dkgRun_good, distKeyShare_total)"⟩,
   ⟨"dkg.DistKeyGenerator.DistKeyShare|deref|pub.Add", "after:pub == nil", .guarded⟩,
   ⟨"dkg.DistKeyGenerator.DistKeyShare|deref|pub.Info", "", .safe "DistKeyShare returned above unless Certified, so qualIter visited at least one dealer and set pub"⟩,
@@ -368,6 +373,10 @@ def table : List Entry := [
   ⟨"tbls.sliceUniqMap|slice|s[:j]", "", .safe "j ≤ len(s)"⟩,
   ⟨"vss.Deal.UnmarshalBinary|index|constructors[reflect.TypeOf(&point).Elem()]", "", .safe "write into the map made one line above"⟩,
   ⟨"vss.Deal.UnmarshalBinary|index|constructors[reflect.TypeOf(&secret).Elem()]", "", .safe "write into the map made one line above"⟩,
+  ⟨"vss.Dealer.EncryptedDeals|index|deals[i]", "", .safe "deals is made with len(d.verifiers), the slice i ranges over"⟩,
+  ⟨"vss.Dealer.EncryptedDeal|callpanics|gcm.Seal(nil, nonce, dealBuff, d.hkdfContext)", "", .safe "nonce is make([]byte, gcm.NonceSize()) two statements earlier"⟩,
+  ⟨"vss.Dealer.EncryptedDeal|index|d.deals[i]", "", .safe "after findPub(d.verifiers, i) succeeded: i < len(d.verifiers) = len(d.deals) (NewDealer makes both from the same list)"⟩,
+  ⟨"vss.Dealer.EncryptedDeal|make|make([]byte, gcm.NonceSize())", "", .safe "NonceSize of the standard GCM is the constant 12"⟩,
   ⟨"vss.Dealer.ProcessResponse|deref|r.Status", "", .safe "r passed d.verifyResponse, which dereferenced it already; nil is rejected in dkg ProcessResponse (respNil)"⟩,
   ⟨"vss.Dealer.ProcessResponse|index|d.deals[int(r.Index)]", "", .cross "vss.findPub" "iidx >= len(verifiers)" "findPubVss"⟩,
   ⟨"vss.Justification.Hash|deref|j.Deal.MarshalBinary", "", .safe "own justification: Deal is d.deals[i], set by NewDealer"⟩,
